@@ -14,7 +14,7 @@ from . import common, mapfam
 
 ID = 'C07'
 LEVEL = 'exploration'
-QUOTA = {'quick': 700, 'thorough': 8000}
+QUOTA = {'quick': 1200, 'thorough': 8000}
 BUDGET = {'quick': 100, 'thorough': 900}
 RELATIONS = ['normalised', 'scale_pow2', 'scale_any', 'gene_perm', 'extra_genes', 'negative']
 RULE = ('scenario = pair of mapping runs over one world related by one of: raw vs declared log2(CPM+1); per-cell '
